@@ -141,7 +141,7 @@ SPEC = {
                  "C05_unused_lock_is_free", "C05_flag_only_calls", "C05_flag_call_contract",
                  "C05_skeleton_flag_calls", "C05_skeleton_batch_ops", "C05_skeleton_type_locks",
                  "C05_source_fresh_objects", "C05_source_flushkv", "C05_source_flushkv_forwarders",
-                 "C05_flushkv_calls", "C05_closed_answer_means_no_effect", "C05_debug_callback", "C05_source_flushkv_realm", "C05_source_debug",
+                 "C05_flushkv_calls", "C05_closed_answer_means_no_effect", "C05_unrepaired_flushkv_history_witness", "C05_debug_callback", "C05_source_flushkv_realm", "C05_source_debug",
                  "C05_skeleton_flushkv_mutators", "C05_skeleton_flushkv_forwarders", "C05_skeleton_debug",
                  "C05_compile_is_assembled", "C05_compile_is_assembled_commit", "C05_compile_is_assembled_wrappers",
                  "C05_lockset_guard_table", "C05_lockset_mapdb", "C05_lockset_access_sites", "C05_lockset_views_immutable",
